@@ -148,7 +148,7 @@ def jobs(tier):
 
 # configurations reached through something other than a declared sub-schema, and schemas that gain their sensitive
 # fields after a first masked rendering
-INDIRECT = ["dict-of-list-of-configs", "list-of-list-of-configs", "dict-of-dict-of-list-of-configs", "sub:dict-of-list-of-configs", "sub:list-of-list-of-configs",
+INDIRECT = ["virtual-raises-in-sub", "dict-of-list-of-configs", "list-of-list-of-configs", "dict-of-dict-of-list-of-configs", "sub:dict-of-list-of-configs", "sub:list-of-list-of-configs",
             "untyped-list-holds-configs", "any-holds-config-list", "dynamic-holds-config-list", "sub:untyped-list-holds-configs", "virtual-returns-item", "virtual-returns-sub", "dynamic-holds-config", "late-attr", "late-item", "late-dotted-item", "late-auto-sub",
             "late-in-item-schema"]
 
@@ -190,6 +190,9 @@ def _indirect_world(variant, keypath, prior_render):
             nested_val = lambda: {"o": {"k": [mk()]}}  # noqa
     if variant == "virtual-returns-item":
         s.first = cc.VirtualField(lambda cfg: cfg.items[0] if cfg.items else None)
+    if variant == "virtual-raises-in-sub":
+        # a virtual field of the sub-configuration whose getter fails (TypeError) when virtual fields are rendered
+        s.sub.broken = cc.VirtualField(lambda cfg: cfg.sec_s + 1)
     if variant == "virtual-returns-sub":
         s.alias = cc.VirtualField(lambda cfg: cfg.sub)
     vals = {"sec_s": "TOPSECRET-xyz", "sec_x": "XSECRET-q9", "pub_s": "PUBLIC-abc"}
@@ -258,16 +261,24 @@ def _indirect(job, ctx):
                     ctx.violation("C10|indirect|%s|%s" % (variant, what), "%s, mask %r, virtual=%s: %s" % (variant, mask, virtual, msg), case)
                 try:
                     cfg = _indirect_world(variant, keypath, prior)
-                    plain = cfg.to_tree(virtual=virtual)
                 except Exception as exc:  # noqa
                     ctx.case(("indirect", variant, repr(ident)), "indirect:unsupported", False)
                     continue
+                try:
+                    plain = cfg.to_tree(virtual=virtual)
+                except Exception as exc:  # noqa
+                    plain = None            # this configuration cannot be rendered this way at all; a masked attempt may fail too, but not leak
                 ctx.transitions += 1
                 try:
                     masked = cfg.to_tree(virtual=virtual, sensitive_mask=mask)
                 except Exception as exc:  # noqa
-                    bad("to_tree-raises", "the masked rendering raised %r, the plain one did not" % (exc,))
+                    if plain is not None:
+                        bad("to_tree-raises", "the masked rendering raised %r, the plain one did not" % (exc,))
+                    else:
+                        ctx.case(("indirect", variant, repr(ident)), "indirect:unrenderable", False)
                     continue
+                if plain is None:
+                    plain = masked
                 live = _live_configs(masked)
                 if live:
                     bad("live-config-in-tree", "the masked tree holds %d live configuration object(s); their sensitive values are readable as they are" % live)
@@ -285,12 +296,14 @@ def _indirect(job, ctx):
                     ctx.transitions += 1
                     try:
                         cfg.dumps(fmt, virtual=virtual)
+                        plain_doc = True
                     except Exception:  # noqa
-                        continue          # this position cannot be written in this format at all
+                        plain_doc = False          # this position cannot be written in this format at all
                     try:
                         data = cfg.dumps(fmt, virtual=virtual, sensitive_mask=mask)
                     except Exception as exc:  # noqa
-                        bad("dumps-raises|" + fmt, "the masked %s document raised %r, the plain one did not" % (fmt, exc))
+                        if plain_doc:
+                            bad("dumps-raises|" + fmt, "the masked %s document raised %r, the plain one did not" % (fmt, exc))
                         continue
                     leaked = [x for x in secrets if x.encode() in data]
                     if leaked:
